@@ -160,6 +160,8 @@ class RebindableNode(Node):
             if node.is_leaf():
                 if not expand:
                     raise NavigationError
+                if node.merkle_root() != zero_hashes[depth]:
+                    raise NavigationError  # only a zero-subtree summary can be expanded
                 child = zero_node(depth - 1)
                 node = self.combine(child, child)
             # Ignored typing, since the rebind methods are `Callable[[Arg(Node, 'v')], Node]` (mypy specific)
@@ -288,6 +290,8 @@ class RootNode(Node):
         if target == 1:
             return identity
         if expand:
+            if self._root != zero_hashes[target.bit_length() - 1]:
+                raise NavigationError  # only a zero-subtree summary can be expanded
             child = zero_node(target.bit_length() - 2)
             return PairNode(child, child).setter(target, expand=True)
         else:
